@@ -287,6 +287,9 @@ while idx + 8 <= buf . len ( ) invariant buf @ . len ( ) < 32 , idx <= buf @ . l
 proof {
 lemma_tail8 ( hash , buf @ , idx as int ) ;
 reveal ( step8 ) ;
+assert forall | a : u64 , b : u64 | # [ trigger ] ( a ^ b ) == b ^ a by {
+assert ( a ^ b == b ^ a ) by ( bit_vector ) ;
+}
 }
 let mut k1 = read_u64_le ( & buf [ idx .. idx + 8 ] ) ;
 k1 = k1 . wrapping_mul ( P2 ) ;
@@ -300,6 +303,9 @@ if idx + 4 <= buf . len ( ) {
 proof {
 lemma_tail4 ( hash , buf @ , idx as int ) ;
 reveal ( step4 ) ;
+assert forall | a : u64 , b : u64 | # [ trigger ] ( a ^ b ) == b ^ a by {
+assert ( a ^ b == b ^ a ) by ( bit_vector ) ;
+}
 }
 let k1 = read_u64_le ( & buf [ idx .. idx + 4 ] ) ;
 hash ^= k1 . wrapping_mul ( P1 ) ;
@@ -311,6 +317,9 @@ while idx < buf . len ( ) invariant buf @ . len ( ) < 32 , idx <= buf @ . len ( 
 proof {
 lemma_tail1 ( hash , buf @ , idx as int ) ;
 reveal ( step1 ) ;
+assert forall | a : u64 , b : u64 | # [ trigger ] ( a ^ b ) == b ^ a by {
+assert ( a ^ b == b ^ a ) by ( bit_vector ) ;
+}
 }
 let k1 = buf [ idx ] as u64 ;
 hash ^= k1 . wrapping_mul ( P5 ) ;
@@ -332,6 +341,11 @@ finalize ( hash ) }
 hide ( vstd :: wrapping :: u64_specs :: wrapping_mul ) ;
 hide ( vstd :: wrapping :: u64_specs :: wrapping_add ) ;
 let mut hash = seed . wrapping_add ( P5 ) . wrapping_add ( 8 ) ;
+proof {
+assert forall | a : u64 , b : u64 | # [ trigger ] ( a ^ b ) == b ^ a by {
+assert ( a ^ b == b ^ a ) by ( bit_vector ) ;
+}
+}
 let mut k1 = input ;
 k1 = k1 . wrapping_mul ( P2 ) ;
 k1 = k1 . rotate_left ( 31 ) ;
